@@ -1,5 +1,7 @@
 package graphql
 
+import "sort"
+
 type SchemaConfig struct {
 	Query        *Object
 	Mutation     *Object
@@ -147,11 +149,19 @@ func NewSchema(config SchemaConfig) (Schema, error) {
 //Add Implementations at Runtime..
 func (gq *Schema) AddImplementation() error {
 
-	// Keep track of all implementations by interface name.
-	if gq.implementations == nil {
-		gq.implementations = map[string][]*Object{}
+	// Keep track of all implementations by interface name. The table is
+	// rebuilt from the type map (in name order) on every call: appending to
+	// the previous one would list every implementer once per AppendType, and
+	// the possible-type cache derived from it would be stale.
+	gq.implementations = map[string][]*Object{}
+	gq.possibleTypeMap = nil
+	typeNames := make([]string, 0, len(gq.typeMap))
+	for name := range gq.typeMap {
+		typeNames = append(typeNames, name)
 	}
-	for _, ttype := range gq.typeMap {
+	sort.Strings(typeNames)
+	for _, name := range typeNames {
+		ttype := gq.typeMap[name]
 		if ttype, ok := ttype.(*Object); ok {
 			for _, iface := range ttype.Interfaces() {
 				impls, ok := gq.implementations[iface.Name()]
